@@ -61,6 +61,8 @@ prop("C08", "exploration",
           "thorough": {"checks": 300000, "shards": 16, "timeout": 1200}},
          {"test": "TestC08_Exhaustive", "quick": {"checks": 1, "timeout": 120},
           "thorough": {"checks": 1, "timeout": 900}},
+         {"test": "TestC08_Concurrent", "quick": {"checks": 4000, "timeout": 300},
+          "thorough": {"checks": 40000, "shards": 8, "timeout": 2400}},
      ],
      ["removals only name regions that were accepted into the cache at some point"])
 
